@@ -61,6 +61,17 @@ _BASE = [
     "Rust harness /verif/harness (thin request server over the public rrss API) and the Python generators/canonicalisers in /verif/vlib",
 ]
 
+_NUM = "IEEE-754 binary64 facts taken as explicit hypotheses of some theorems (true of Rust's f64; sampled on the implementation by the C14 and C03 checks): "
+_CHR = "Unicode facts of the Rust std taken as explicit hypotheses (checked exhaustively over all 1 114 112 code points by `harness charlaws` on every run of this check): "
+
 TRUSTED = {
     '*': _BASE,
+    'C03': _BASE + ["the model's own f64 Display/FromStr (Rrss/F64.lean, exact big-Nat algorithms) agree with Rust's: validated on every run (boundaries + random bit patterns)"],
+    'C11': _BASE + [_NUM + 'mul_nat, add_nat (exact integer arithmetic up to 2^53), add_negzero (-0 + a = a)'],
+    'C12': _BASE + [_CHR + "hnl (a line feed is whitespace)", "hkw: no keyword-table entry maps to newline/number/string/comment (decided on the regenerated table)"],
+    'C13': _BASE + [_CHR + "hnl (a line feed is whitespace)"],
+    'C14': _BASE + [_NUM + 'NumLaws.cmp_swap, NumLaws.beq_cmp (partial_cmp and == are consistent), int_exact (integer addition exact up to 2^53) for build/knock'],
+    'C15': _BASE + [_CHR + 'hlow (is_lowercase c -> to_lowercase c = [c]), hidem (lower-casing idempotent per character), hfix/hup (ASCII letters fold to ASCII lower case)',
+                    'str::to_lowercase is modelled per character (final-sigma rule ignored; it cannot produce an ASCII keyword)'],
+    'C20': _BASE + ['process creation, clap argument parsing, stdout buffering, colour codes and exit status are runtime behaviour: decided by running the built binary, not by a theorem'],
 }
